@@ -44,6 +44,7 @@ import (
 	"sort"
 	"strings"
 	"sync"
+	"sync/atomic"
 	"testing"
 	"time"
 
@@ -90,6 +91,8 @@ type v01Op struct {
 	HoldLate   bool   // v01HoldPastClose: also wait until the next round's connections are open
 	Detached   bool   // the round does not wait for this op (it can only finish when its connection is closed)
 	pairOf     *v01Op
+	ReuseOf    *v01Op // the credential string is, verbatim, the one of this earlier accepted op (usually of another connection)
+	BadWhy     string // AuthBad: why the authenticator rejects it
 	// H
 	HTTP *v01HTTPReq
 	// T
@@ -120,6 +123,12 @@ func (o *v01Op) String() string {
 		tok := o.Token
 		if tok == "\x00" {
 			tok = "<absent>"
+		}
+		if o.ReuseOf != nil {
+			tok += " (verbatim reuse)"
+		}
+		if o.BadWhy != "" {
+			tok += " [" + o.BadWhy + "]"
 		}
 		s := fmt.Sprintf("%s(c%d op%d token=%q rx=%s", v01KindNames[o.Kind], o.Conn, o.N, tok, o.CCRX)
 		if o.Slow {
@@ -164,6 +173,11 @@ type v01Case struct {
 	OneP       bool  // run the case with GOMAXPROCS(1) (makes per-P caches/pools in the server deterministic)
 	Mode       string
 	Seed       int64
+	// the authenticator's verdict table changes during the case and depends on the connection:
+	RevokeAt  map[string]int // token -> from this round on it is rejected for everybody
+	LateToken string         // rejected before round GrantAt, accepted from then on
+	GrantAt   int
+	DenyConn  []bool // the authenticator rejects everything presented from this connection's address
 }
 
 func (c *v01Case) render() string {
@@ -175,6 +189,17 @@ func (c *v01Case) render() string {
 			role = "accept"
 		}
 		fmt.Fprintf(&b, " c%d[r%d..r%d %s]", i, p.Open, p.Close-1, role)
+	}
+	if len(c.RevokeAt) > 0 || c.LateToken != "" {
+		fmt.Fprintf(&b, " revoke-at-round=%v", c.RevokeAt)
+		if c.LateToken != "" {
+			fmt.Fprintf(&b, " grant %q at round %d", c.LateToken, c.GrantAt)
+		}
+	}
+	for i, d := range c.DenyConn {
+		if d {
+			fmt.Fprintf(&b, " authenticator-denies-c%d", i)
+		}
 	}
 	for r, ops := range c.Rounds {
 		fmt.Fprintf(&b, "\n  round %d:", r)
@@ -198,6 +223,9 @@ func (c *v01Case) fingerprint() string {
 			}
 			if o.Slow {
 				k += "~" + fmt.Sprint(o.Hold)
+			}
+			if o.ReuseOf != nil {
+				k += "="
 			}
 			per[o.Conn] = append(per[o.Conn], fmt.Sprintf("%d%s", r, k))
 		}
@@ -311,6 +339,32 @@ func v01BadToken(rt *rapid.T, good []string, name string) string {
 	}
 }
 
+func v01Base(auth string) string {
+	if i := strings.LastIndexByte(auth, '#'); i >= 0 {
+		return auth[:i]
+	}
+	return auth
+}
+
+// valid: would the authenticator accept this token in round r (connection aside)?
+func (c *v01Case) valid(base string, r int) bool {
+	if base == "" {
+		return false
+	}
+	if base == c.LateToken {
+		return r >= c.GrantAt
+	}
+	for _, g := range c.GoodTokens {
+		if g == base {
+			if k, ok := c.RevokeAt[g]; ok && r >= k {
+				return false
+			}
+			return true
+		}
+	}
+	return false
+}
+
 func v01Seq(a, b int) []int {
 	var out []int
 	for i := a; i <= b; i++ {
@@ -329,6 +383,17 @@ func v01DrawCase(rt *rapid.T) *v01Case {
 	}
 	c.UseTL = rapid.IntRange(0, 3).Draw(rt, "tl") == 0
 	nr := rapid.IntRange(2, 6).Draw(rt, "rounds")
+	// --- the verdict table changes over time: revoke / grant steps between rounds (the first token is never revoked)
+	c.RevokeAt = map[string]int{}
+	for _, g := range c.GoodTokens[1:] {
+		if rapid.IntRange(0, 1).Draw(rt, "revoke/"+g) == 0 {
+			c.RevokeAt[g] = rapid.IntRange(1, nr-1).Draw(rt, "revokeat/"+g)
+		}
+	}
+	if rapid.IntRange(0, 2).Draw(rt, "late") == 0 {
+		c.LateToken = "late-" + v01TokenPool[(off+ntok)%len(v01TokenPool)]
+		c.GrantAt = rapid.IntRange(1, nr-1).Draw(rt, "grantat")
+	}
 	// --- connection lifetimes
 	c.Mode = rapid.SampledFrom([]string{"overlap", "overlap", "generations", "generations", "generations"}).Draw(rt, "mode")
 	if c.Mode == "overlap" {
@@ -383,6 +448,7 @@ func v01DrawCase(rt *rapid.T) *v01Case {
 		c.OneP = rapid.IntRange(0, 9).Draw(rt, "gomaxprocs1") < 4
 	}
 	c.NConn = len(c.Conns)
+	c.DenyConn = make([]bool, c.NConn)
 	c.Accept = make([]bool, c.NConn)
 	for i, p := range c.Conns {
 		c.Accept[i] = p.Accept
@@ -486,12 +552,74 @@ func v01DrawCase(rt *rapid.T) *v01Case {
 			post := c.AcceptRnd[o.Conn] >= 0 && r > c.AcceptRnd[o.Conn]
 			switch o.Kind {
 			case v01KAuthGood, v01KAuthBad:
+				// earlier accepted auth ops whose 233 was received: their credential string may be presented again, verbatim
+				var cands []*v01Op
+				for _, ops2 := range c.Rounds[:r] {
+					for _, x := range ops2 {
+						if x.Kind == v01KAuthGood && x.Token != "\x00" && c.ParkClose[x.Conn] != x.Round && x.Conn != o.Conn {
+							cands = append(cands, x)
+						}
+					}
+				}
 				if o.Kind == v01KAuthGood {
-					o.Token = rapid.SampledFrom(c.GoodTokens).Draw(rt, name+"/tok") + "#" + o.Label
-				} else if t := v01BadToken(rt, c.GoodTokens, name+"/bad"); t == "\x00" {
-					o.Token = t
+					var valid []string
+					for _, g := range c.GoodTokens {
+						if c.valid(g, r) {
+							valid = append(valid, g)
+						}
+					}
+					if c.LateToken != "" && c.valid(c.LateToken, r) {
+						valid = append(valid, c.LateToken)
+					}
+					var okc []*v01Op
+					for _, x := range cands {
+						if c.valid(v01Base(x.Token), r) {
+							okc = append(okc, x)
+						}
+					}
+					if len(okc) > 0 && rapid.IntRange(0, 2).Draw(rt, name+"/reuse") == 0 {
+						o.ReuseOf = rapid.SampledFrom(okc).Draw(rt, name+"/reuseof")
+						o.Token = o.ReuseOf.Token
+					} else {
+						o.Token = rapid.SampledFrom(valid).Draw(rt, name+"/tok") + "#" + o.Label
+					}
 				} else {
-					o.Token = t + "#" + o.Label
+					h := rapid.IntRange(0, 9).Draw(rt, name+"/badkind")
+					var revoked []string
+					for _, g := range c.GoodTokens {
+						if !c.valid(g, r) {
+							revoked = append(revoked, g)
+						}
+					}
+					var rc []*v01Op // reusable and rejected here: the token was revoked meanwhile, or (never-accepted connection) the authenticator rejects this connection
+					for _, x := range cands {
+						if !c.valid(v01Base(x.Token), r) || !c.Accept[o.Conn] {
+							rc = append(rc, x)
+						}
+					}
+					switch {
+					case len(rc) > 0 && h < 4:
+						o.ReuseOf = rapid.SampledFrom(rc).Draw(rt, name+"/reuseof")
+						o.Token = o.ReuseOf.Token
+						if c.valid(v01Base(o.Token), r) {
+							c.DenyConn[o.Conn] = true
+							o.BadWhy = "accepted elsewhere, authenticator rejects this connection"
+						} else {
+							o.BadWhy = "accepted earlier, revoked since"
+						}
+					case len(revoked) > 0 && h < 6:
+						o.Token = rapid.SampledFrom(revoked).Draw(rt, name+"/revoked") + "#" + o.Label
+						o.BadWhy = "revoked"
+					case c.LateToken != "" && !c.valid(c.LateToken, r) && h < 7:
+						o.Token = c.LateToken + "#" + o.Label
+						o.BadWhy = "not granted yet"
+					default:
+						if t := v01BadToken(rt, c.GoodTokens, name+"/bad"); t == "\x00" {
+							o.Token = t
+						} else {
+							o.Token = t + "#" + o.Label
+						}
+					}
 				}
 				if o.pairOf != nil && o.Token == "\x00" {
 					o.Token = "wrong-password#" + o.Label
@@ -624,6 +752,7 @@ type v01Run struct {
 	roundOpened []chan struct{}          // closed when the connections of that round are open
 	detached    [][]chan struct{}        // per connection: completion of ops the rounds did not wait for
 	softMissing int                      // Disconnect / late verdict not seen within the soft bound
+	boundary    atomic.Int32             // current round: the authenticator's verdict table depends on it
 }
 
 func v01CloseOnce(ch chan struct{}) {
@@ -676,8 +805,29 @@ func v01Execute(c *v01Case) (_ *v01Run, envErr string) {
 	}
 	// harness-owned yield point inside Authenticate: every wait has a cap, so a server that
 	// serialises the calls differently than expected can delay a case but never dead-lock it
-	hook := func(token string) {
-		o := byLabel[v01LabelID(token)]
+	// the same credential string may be presented by several connections: ops are found by (connection, string)
+	byConnTok := map[string]*v01Op{}
+	for _, o := range byLabel {
+		if (o.Kind == v01KAuthGood || o.Kind == v01KAuthBad) && o.Token != "\x00" {
+			byConnTok[fmt.Sprintf("%d|%s", o.Conn, o.Token)] = o
+		}
+	}
+	verdict := func(conn int, auth string) bool {
+		if conn < 0 || conn >= c.NConn || c.DenyConn[conn] {
+			return false
+		}
+		// The verdict table changes between rounds. A request is judged as of the round in which
+		// it was ISSUED, whenever the server gets round to asking (a request queued behind a
+		// parked call of its connection may be evaluated rounds later): this keeps the model
+		// independent of server-side scheduling. Unknown strings use the current round.
+		r := int(run.boundary.Load())
+		if o := byConnTok[fmt.Sprintf("%d|%s", conn, auth)]; o != nil {
+			r = o.Round
+		}
+		return c.valid(v01Base(auth), r)
+	}
+	hook := func(conn int, token string) {
+		o := byConnTok[fmt.Sprintf("%d|%s", conn, token)]
 		if o == nil || o.Hold == v01HoldNone {
 			return
 		}
@@ -696,8 +846,12 @@ func v01Execute(c *v01Case) (_ *v01Run, envErr string) {
 		}
 		time.Sleep(time.Duration(o.HoldMs) * time.Millisecond)
 	}
-	done := func(token string) {
-		if ch := run.authDone[v01LabelID(token)]; ch != nil {
+	done := func(conn int, token string) {
+		o := byConnTok[fmt.Sprintf("%d|%s", conn, token)]
+		if o == nil {
+			return
+		}
+		if ch := run.authDone[o.Label]; ch != nil {
 			run.evMu.Lock()
 			v01CloseOnce(ch)
 			run.evMu.Unlock()
@@ -708,7 +862,7 @@ func v01Execute(c *v01Case) (_ *v01Run, envErr string) {
 		prev := runtime.GOMAXPROCS(1)
 		defer runtime.GOMAXPROCS(prev)
 	}
-	run.env = v01NewEnv(v01EnvCfg{GoodTokens: c.GoodTokens, UseTL: c.UseTL, AuthHook: hook, AuthDone: done})
+	run.env = v01NewEnv(v01EnvCfg{GoodTokens: c.GoodTokens, UseTL: c.UseTL, AuthHookC: hook, AuthDoneC: done, Verdict: verdict})
 	run.clients = make([]*v01Client, c.NConn)
 	run.barrier = make([]v01HTTPResp, c.NConn)
 	run.dgramsN = make([]int, c.NConn)
@@ -742,6 +896,7 @@ func v01Execute(c *v01Case) (_ *v01Run, envErr string) {
 			}
 			run.clients[i] = cl
 		}
+		run.boundary.Store(int32(r)) // revoke / grant steps take effect here
 		v01CloseOnce(run.roundOpened[r])
 		go func(r int) { run.wgs[r].Wait(); close(run.gates[r]) }(r)
 		var wg sync.WaitGroup
@@ -858,7 +1013,7 @@ func (run *v01Run) finish(conns []int, more bool) (envErr string) {
 	for _, i := range conns {
 		for _, ops := range c.Rounds {
 			for _, o := range ops {
-				if o.Conn == i && o.Hold == v01HoldPastClose && !o.HoldLate && run.env.log.count("AuthCall", o.Token) > 0 {
+				if o.Conn == i && o.Hold == v01HoldPastClose && !o.HoldLate && run.env.log.countConnLabel("AuthCall", i, o.Token) > 0 {
 					if !v01WaitCap(run.authDone[o.Label], 2*time.Second) {
 						run.softMissing++
 					}
@@ -1234,6 +1389,28 @@ func (c *v01Case) classify() (nt bool, classes []string) {
 					}
 				}
 			}
+			if o.ReuseOf != nil {
+				if o.Kind == v01KAuthGood {
+					set["verbatim-reuse:accepted-on-other-conn-too"] = true
+				} else if c.DenyConn[o.Conn] && c.valid(v01Base(o.Token), r) {
+					set["verbatim-reuse:rejected-for-this-conn"] = true
+				} else {
+					set["verbatim-reuse:rejected-after-revoke"] = true
+				}
+				if !c.Accept[o.Conn] {
+					set["verbatim-reuse:on-never-accepted-conn"] = true
+					for _, ops2 := range c.Rounds[r:] {
+						for _, x := range ops2 {
+							if x.Conn == o.Conn && (x.Kind == v01KTCPReq || x.Kind == v01KDatagram) {
+								set["verbatim-reuse:on-never-accepted-conn+proxy"] = true
+							}
+						}
+					}
+				}
+			}
+			if o.BadWhy == "revoked" || o.BadWhy == "not granted yet" {
+				set["authbad="+o.BadWhy] = true
+			}
 			if o.Slow {
 				set["held-authenticator"] = true
 				set["hold="+v01HoldNames[o.Hold]] = true
@@ -1310,6 +1487,12 @@ func (c *v01Case) classify() (nt bool, classes []string) {
 			}
 		}
 	}
+	if len(c.RevokeAt) > 0 {
+		set["revoke-step"] = true
+	}
+	if c.LateToken != "" {
+		set["grant-step"] = true
+	}
 	if lateAcceptThenBad {
 		set["accept-verdict-after-close+later-conn-authbad"] = true
 	}
@@ -1326,7 +1509,8 @@ func (c *v01Case) classify() (nt bool, classes []string) {
 	}
 	nt = (accProxy && neverProxy) || reauthThenProxy || preProxy || (neverProxy && set["held-authenticator"]) ||
 		set["conn-after-closed-accepted:never-accepted+proxy"] || set["conn-after-closed-accepted:never-accepted+authbad"] ||
-		set["conn-after-closed-accepted:authbad-before-own-accept"] || set["concurrent-auths-ordered"] || set["hold=past-close"]
+		set["conn-after-closed-accepted:authbad-before-own-accept"] || set["concurrent-auths-ordered"] || set["hold=past-close"] ||
+		set["verbatim-reuse:on-never-accepted-conn"] || set["verbatim-reuse:rejected-after-revoke"]
 	_ = afterClosedAccepted
 	for k := range set {
 		classes = append(classes, k)
